@@ -48,12 +48,17 @@ func H16_teardown() {
 	// write side broken (the broker cannot answer any more) and then a last SUBSCRIBE before the drop
 	how := vrtChoice("ending", 6)
 	var s, p *vrtConn
+	sClean := vrtBool("s_clean")
+	pid := []byte("p")
+	if vrtBool("anonymous_publisher") {
+		pid = nil // a zero-length client id: the broker makes one up, the session is a clean one
+	}
 	if vrtBool("publisher_connects_first") {
-		p, _ = b.connect(vrtConnectPkt([]byte("p"), true))
-		s, _ = b.connect(vrtConnectPkt([]byte("s"), vrtBool("s_clean")))
+		p, _ = b.connect(vrtConnectPkt(pid, true))
+		s, _ = b.connect(vrtConnectPkt([]byte("s"), sClean))
 	} else {
-		s, _ = b.connect(vrtConnectPkt([]byte("s"), vrtBool("s_clean")))
-		p, _ = b.connect(vrtConnectPkt([]byte("p"), true))
+		s, _ = b.connect(vrtConnectPkt([]byte("s"), sClean))
+		p, _ = b.connect(vrtConnectPkt(pid, true))
 	}
 	vrtExchange(s, &specPkt{Typ: specSUBSCRIBE, ID: 1, Topics: [][]byte{[]byte("to/s")}, QoS: []byte{0}})
 	vrtExchange(p, &specPkt{Typ: specSUBSCRIBE, ID: 1, Topics: [][]byte{[]byte("to/p")}, QoS: []byte{0}})
@@ -159,6 +164,14 @@ func H16_teardown() {
 	}
 	vrtAssert("C16.connections_closed", vrtAnd(p.isClosed(), s.isClosed()))
 	vrtAssert("C16.no_goroutine_of_an_ended_connection_remains", vrtLiveGoroutines() == base)
+	// clean sessions are discarded, the persistent one is kept
+	wantSessions := 0
+	if !sClean {
+		wantSessions = 1
+	}
+	if how != 4 { // (Server.Close closes the session store as a whole)
+		vrtAssert("C16.clean_sessions_discarded", b.svr.sessMgr.Count() == wantSessions)
+	}
 	// nothing of the ended connections is still subscribed
 	if how != 4 {
 		var subs []interface{}
